@@ -401,7 +401,7 @@ def emit_fn(u, it, opts, header_lines, spec_lines, canary, recursor_file):
         res = stub
         for v in vals:
             v = v.replace('~', ' ')
-            cname = '%s__case_%s' % (name, re.sub(r'\W+', '_', v).strip('_'))
+            cname = '%s__case_%s' % (name, re.sub(r'\W+', '_', v.replace('-', 'neg')).strip('_'))
             h2, _ = X.rename_ident(header, name, cname)
             sp = pspec
             mreq = re.search(r'\brequires\b', sp)
